@@ -60,6 +60,8 @@ func verifOwners(rt *runtime) [][2]interface{} {
 //
 //	bind  <owner> <property> <mode, octal> <nativeFunctionObject.name> <Go name of .call> <Go name of .construct>
 //	self  <owner> <class field> <nativeFunctionObject.name> <Go name of .call> <Go name of .construct>
+//	kind  <owner> <property|@self> <class field> <objectClass: name of the internal-method table> <Go type of .value>
+//	              for the owners themselves and for every object-valued slot
 //	order <path>  <detail>     one line per reachable object whose propertyOrder is not exactly the key set of property
 //	count <number of objects visited>
 //	eval  <ok|differs>         rt.eval is the object bound to the global property eval
@@ -74,6 +76,30 @@ func VerifC14Static(vm *Otto) []string {
 		}
 		return "-", "-", "-", false
 	}
+	kindOf := func(o *object) string {
+		oc := "other"
+		switch o.objectClass {
+		case nil:
+			oc = "nil"
+		case classObject:
+			oc = "Object"
+		case classArray:
+			oc = "Array"
+		case classString:
+			oc = "String"
+		case classArguments:
+			oc = "Arguments"
+		case classGoStruct:
+			oc = "GoStruct"
+		case classGoMap:
+			oc = "GoMap"
+		case classGoArray:
+			oc = "GoArray"
+		case classGoSlice:
+			oc = "GoSlice"
+		}
+		return fmt.Sprintf("%s\t%s\t%T", o.class, oc, o.value)
+	}
 	for _, ow := range verifOwners(rt) {
 		name, obj := ow[0].(string), ow[1].(*object)
 		if obj == nil {
@@ -82,6 +108,7 @@ func VerifC14Static(vm *Otto) []string {
 		}
 		n, c, k, _ := nativeOf(obj)
 		out = append(out, fmt.Sprintf("self\t%s\t%s\t%s\t%s\t%s", name, obj.class, n, c, k))
+		out = append(out, fmt.Sprintf("kind\t%s\t@self\t%s", name, kindOf(obj)))
 		for _, pn := range obj.propertyOrder {
 			p, ok := obj.property[pn]
 			if !ok {
@@ -93,6 +120,7 @@ func VerifC14Static(vm *Otto) []string {
 				continue
 			}
 			if fo, isobj := v.value.(*object); isobj && v.kind == valueObject {
+				out = append(out, fmt.Sprintf("kind\t%s\t%s\t%s", name, pn, kindOf(fo)))
 				n, c, k, isn := nativeOf(fo)
 				if isn {
 					out = append(out, fmt.Sprintf("bind\t%s\t%s\t%o\t%s\t%s\t%s", name, pn, p.mode, n, c, k))
